@@ -503,7 +503,7 @@ TERMINAL_CALLERS = {
 }
 
 
-def terminal_callers_rule(ctx: Ctx, rule="R-C14-REDELIVER", ops=C.TERMINAL_OPS) -> None:
+def terminal_callers_rule(ctx: Ctx, rule="R-C14-REDELIVER", ops=C.TERMINAL_OPS, minimum: int | None = None) -> None:
     n = 0
     for fn in ctx.prog.iter_functions():
         if fn.module.name.startswith("repid.testing"):
@@ -519,7 +519,7 @@ def terminal_callers_rule(ctx: Ctx, rule="R-C14-REDELIVER", ops=C.TERMINAL_OPS) 
                 ctx.check(ok, rule, fn, f"{op} called from {fn.short()}", "a known owner of terminal actions",
                           f"{fn.short()} applies the terminal broker operation '{op}': terminal actions may only come from the processor's ladder, the runner's cancel/limit path, the Message API, "
                           "consumer shutdown and Redis maintenance - anything else can return or dispose a message its holder is still working on", node=c, instance=f"{op} in {fn.short()}")
-    ctx.floor(rule, n, 14, "terminal broker operation call sites")
+    ctx.floor(rule, n, minimum if minimum is not None else (14 if set(ops) == set(C.TERMINAL_OPS) else 9), "terminal broker operation call sites")
 
 
 def redis_op_fields(ctx: Ctx, rule: str) -> None:
